@@ -120,6 +120,8 @@ PATCH_VIS = {
 }
 PATCH_KW = {
     'none': {},
+    # the data transform of the Axes given explicitly (what plot() amounts to): the outline stays where it is
+    'transform': {'transform': 'AX_TRANSDATA', 'linewidth': 2},
     'edgecolor': {'edgecolor': 'blue'},
     'linewidth': {'linewidth': 5},
     'fill_false': {'fill': False},
@@ -200,7 +202,8 @@ def _angles(tier):
 def configs(tier):
     """Geometry specs (without visual), simplest first within each class."""
     A = _angles(tier)
-    C = K.CENTRES[:3] if tier == 'quick' else K.CENTRES
+    # (12, 7): Python ints -- PixCoord keeps them as integers, the plot origin may have a fractional part
+    C = (K.CENTRES[:3] if tier == 'quick' else K.CENTRES) + [(12, 7)]
     out = []
     for c in C:
         for r in SIZES:
@@ -457,7 +460,7 @@ def _expect(kind, vis, kw):
             exp['rotation'] = (vis['textangle'], 'visual')
     for k, v in kw.items():
         k = _ALIAS.get(k, k)
-        if k == 'width':
+        if k in ('width', 'transform'):
             continue
         if k == 'color':
             if kind in ('patch', 'line', 'bbox'):
@@ -723,7 +726,10 @@ def check_call(res, spec, origin, form, visname, vis, kwname, kw, ndir, Q=None):
                      'point': {'markeredgecolor': 'magenta', 'markersize': 19},
                      'text': {'color': 'magenta', 'fontsize': 19}}.get(kind, {})
             _call(lambda: make(prime))
+    kw_json = kw
+    kw = {k: (_axes().transData if v == 'AX_TRANSDATA' else v) for k, v in kw.items()}
     artist, exc = _call(lambda: make(kw))
+    kw = kw_json
     res.transitions += 1
     if exc is not None:
         # every keyword used here is accepted by the artist class, so no exception is acceptable.  When the
